@@ -35,7 +35,7 @@ animate set a:b`)
 
 // AttrVocab: attribute names documents draw from in addition to the policy's own.
 var AttrVocab = strings.Fields(`id class title lang dir href src cite rel target alt width height align type value name style data-x data-foo-bar
-data-xml-x data-Upper data-a;b data-adata-b;c data-xdata-xmly data-data- data- onclick onerror onload onmouseover xlink:href xmlns xmlns:xlink crossorigin sandbox srcset action formaction
+data-xml-x data-xmlns-data-x data-xml-data-a data-Adata-b data-x;data-y data-- data--- data-xml data-Upper data-a;b data-adata-b;c data-xdata-xmly data-data- data- onclick onerror onload onmouseover xlink:href xmlns xmlns:xlink crossorigin sandbox srcset action formaction
 background poster usemap datetime open colspan span valign nowrap scope coords shape summary abbr headers min max low high optimum
 srcdoc http-equiv content charset download ping integrity is part slot autofocus contenteditable tabindex accesskey`)
 
